@@ -41,7 +41,7 @@ T = {
          "Trust: as C01; the equality with an explicitly constructed ROBDD datatype lives in the oracle, the theorem is stated on the sub-function characterisation.",
          "Lean 4 proof of the counting characterisation + differential run + ROBDD oracle", "5 (C07)"),
  "C08": ("Lean theorems: cmp is numeric comparison of the little-endian table value (total order, agrees with equality), the successor step is +1 modulo 2^(2^n) with the returned flag = no wrap, "
-         "including carries across words, and the iterator yields the k-th function at step k and then stops; tie: hook verif_next + differential run incl. all-ones low words; oracle: own big-integer arithmetic.",
+         "including carries across words, the iterator yields the k-th function at step k and then stops, and for equal n the order is the byte order of the fixed-width hex strings (Props/C08Hex.lean); tie: hook verif_next + differential run incl. all-ones low words; oracle: own big-integer arithmetic.",
          "Trust: as C01.", "Lean 4 proof + hook-driven differential run + big-integer oracle", "5 (C08)"),
  "C09": ("Lean theorems: printing has exact width and the digits are the bits MSB first; the parser accepts exactly the strings of the right length made of hex digits whose value fits, and parse(print t) = t; "
          "it never panics and never yields a malformed table; tie: differential run on printed, mutated and arbitrary byte strings (incl. '+', '-', non-ASCII); oracle: reference parser/printer.",
